@@ -974,3 +974,6 @@ V("C17", "lammps-reader-alpha-sign", LMPF, "            alpha = np.arccos((xy * 
 V("C17", "lammps-writer-ly-from-c", LMPF, "            ly = np.sqrt(b**2 - xy**2)", "            ly = np.sqrt(b**2 - xz**2)", "C17-R7")
 V("C17", "twin-cz-powers", UCF, "    cz = np.sqrt(c_length * c_length - cx * cx - cy * cy)", "    cz = np.sqrt(c_length**2 - cx**2 - cy**2)", None)
 V("C17", "twin-cy-factored", UCF, "    cy = c_length * (np.cos(alpha) - np.cos(beta) * np.cos(gamma)) / np.sin(gamma)", "    cy = (c_length * np.cos(alpha) - cx * np.cos(gamma)) / np.sin(gamma)", None)
+V("C07", "twin-atom-dict-comprehension", DHPY, "            local_dict = {}\n            for atom in residue.atoms:\n                local_dict[atom.name] = atom.index\n            residue_dict[residue.index] = local_dict", "            residue_dict[residue.index] = {atom.name: atom.index for atom in residue.atoms}", None)
+V("C07", "atom-dict-shared-residue-level", DHPY, "        for residue in chain.residues:\n            local_dict = {}", "        local_dict = {}\n        for residue in chain.residues:", "C07-R4")
+V("C07", "dihedral-orthogonal-from-last-frame", DHPY, "            orthogonal = np.allclose(traj.unitcell_angles, 90)", "            orthogonal = np.allclose(traj.unitcell_angles[-1], 90)", "C07-R1")
